@@ -11,6 +11,8 @@ Monitors (DESIGN 3/C05):
   * instrumented collaborator ``HashLM``: the state the model is handed is the state of exactly
     the prefix it is asked about (judged offline on live slots only).
 """
+import math
+
 from ..oracles import c05_ref as R
 from . import _c05_lm as LM
 from .. import layout as LY
@@ -42,7 +44,7 @@ BUDGET = {
     "thorough": dict(cases=6000, shards=16, timeout=5400, time=1500),
 }
 _BASE = ["small", "wide", "lens_mixed", "lm_plain", "saturated", "lm_mixture", "peaky", "wide_lm", "T0",
-         "manual", "uniform", "lm_batch_lens", "f64", "beta0", "wide_sat"]
+         "manual", "uniform", "lm_batch_lens", "f64", "beta0", "wide_sat", "big_working_set"]
 FLOORS = {
     "quick": {
         "events": {"CTCPrefixSearch": 1500, "ctc_prefix_search_advance": 5000,
@@ -167,6 +169,31 @@ def generate(rng, tier, i):
         T, V, N = rng.randint(1, 6), rng.randint(1, 4), rng.choice([1, 2])
         lm = _lm(rng, N, 0.0, rng.random() < 0.5)
     logits = _logits(rng, T, N, V, scale)
+    if cls == "big_working_set":
+        # batch x beam x beam x vocabulary runs to millions of entries, none of the sizes a round number
+        # (block-wise walks over any of these dimensions)
+        cells = rng.choice([2 ** 20, 2 ** 21, 2 ** 22]) * rng.uniform(1.0, 1.9)
+        if rng.random() < 0.5:
+            # large vocabulary of which a handful of tokens carries the mass (as acoustic models do)
+            V, width, T = rng.choice([61, 130, 257, 300]), rng.choice([24, 31, 40, 64]), rng.randint(4, 6)
+            N = max(1, min(6, int(cells / (width * width * V)) + 1))
+            strong = rng.sample(range(V + 1), rng.randint(2, 4))
+            logits = []
+            for t in range(T):
+                if rng.random() < 0.3:
+                    strong[rng.randrange(len(strong))] = rng.randrange(V + 1)
+                frame = []
+                for n in range(N):
+                    row = [round(rng.gauss(-7.0, 0.5), 3) for _ in range(V + 1)]
+                    for v in strong:
+                        row[v] = round(rng.gauss(0.0, 1.0), 3)
+                    frame.append(row)
+                logits.append(frame)
+        else:
+            V, T = rng.choice([3, 4]), rng.randint(5, 6)
+            N = rng.choice([1, 1, 2])
+            width = int(math.sqrt(cells / (N * V))) + rng.randint(1, 9)
+            logits = _logits(rng, T, N, V, rng.choice([0.5, 1.0, 2.0]))
     return {"class": cls, "T": T, "N": N, "V": V, "width": width, "dtype": dtype, "logits": logits,
             "lens": lens, "lm": lm, "form": form}
 
